@@ -493,6 +493,11 @@ def generate(ctx):
             else:
                 c["add_not_indexed"] = True
             yield from emit("known/unused_phase", c)
+        # names with leading / trailing blanks; two names that differ only by a trailing blank
+        for rep in range(2):
+            c = safe_sg(G.grid_case(rng, [2, 3], nphases=2))
+            c["phases"][0]["name"], c["phases"][1]["name"] = [("Ni ", "Ni"), (" alpha Ti", "alpha Ti  ")][rep]
+            yield from emit("phase/name_with_blanks", c)
         # outside the model's domain: prop site only
         c = safe_sg(G.grid_case(rng, [2, 3], nphases=1))
         c["props"] = [{"name": "label", "dtype": "<U1", "k": 0, "vals": list("abcdef")}]
